@@ -323,7 +323,7 @@ func (w *Worker) account(c *SimCase, st *CaseStats) {
 // SimProperty is the rapid property for the simulator-based checks.
 func (w *Worker) SimProperty(prop string, draw func(Chooser, string) *SimCase) func(rt *rapid.T) {
 	return func(rt *rapid.T) {
-		rec := &recorder{in: rapidChooser{rt}}
+		rec := newRecorder(rt)
 		c := draw(rec, prop)
 		vs, st, trouble := ExecSimCase(w.T, c)
 		if len(trouble) > 0 {
@@ -521,7 +521,7 @@ func (w *Worker) replay(path string) {
 		return
 	}
 	for pass := 0; pass < 2; pass++ {
-		rc := &replayChooser{draws: rf.Draws}
+		rc := &replayChooser{Draws: rf.Draws}
 		draw := DrawSimCase
 		if d, ok := simDrawers[rf.Property]; ok {
 			draw = d
